@@ -154,3 +154,76 @@ func Hamming(a, b []byte) int {
 	}
 	return n
 }
+
+// LCSBanded is LCS restricted to the cells with |i-j| <= band. It equals LCS whenever an optimal
+// alignment stays inside the band, which holds when band >= (len difference) + number of
+// differences of some alignment (an alignment leaving the band loses more matches than that one).
+func LCSBanded(a, b []byte, band int, same func(x, y byte) bool) (lcs, alilen int) {
+	type cell struct{ s, l int }
+	const none = -1 << 30
+	better := func(x, y cell) bool {
+		if x.s != y.s {
+			return x.s > y.s
+		}
+		return x.l < y.l
+	}
+	w := 2*band + 1
+	// row i holds columns j in [i-band, i+band]; index k = j - i + band
+	prev := make([]cell, w+2)
+	cur := make([]cell, w+2)
+	for k := range prev {
+		prev[k] = cell{none, 0}
+	}
+	for j := 0; j <= band && j <= len(b); j++ {
+		prev[j+band] = cell{0, j}
+	}
+	for i := 1; i <= len(a); i++ {
+		for k := range cur {
+			cur[k] = cell{none, 0}
+		}
+		for k := 0; k < w; k++ {
+			j := i - band + k
+			if j < 0 || j > len(b) {
+				continue
+			}
+			if j == 0 {
+				cur[k] = cell{0, i}
+				continue
+			}
+			best := cell{none, 0}
+			// diagonal: (i-1, j-1) has the same k in the previous row
+			if d := prev[k]; d.s != none {
+				d.l++
+				if same(a[i-1], b[j-1]) {
+					d.s++
+				}
+				best = d
+			}
+			// up: (i-1, j) is k+1 in the previous row
+			if k+1 < w {
+				if u := prev[k+1]; u.s != none {
+					u.l++
+					if best.s == none || better(u, best) {
+						best = u
+					}
+				}
+			}
+			// left: (i, j-1) is k-1 in the current row
+			if k-1 >= 0 {
+				if l := cur[k-1]; l.s != none {
+					l.l++
+					if best.s == none || better(l, best) {
+						best = l
+					}
+				}
+			}
+			cur[k] = best
+		}
+		prev, cur = cur, prev
+	}
+	k := len(b) - len(a) + band
+	if k < 0 || k >= w || prev[k].s == none {
+		return -1, -1
+	}
+	return prev[k].s, prev[k].l
+}
